@@ -243,8 +243,7 @@ static void part_b(report& r)
 {
     std::string const tn = vf::type_name<T>();
     std::vector<sz> channel_counts;
-    for (sz c = 1; c <= 14; ++c) channel_counts.push_back(c);
-    channel_counts.push_back(30);
+    for (sz c = 1; c <= 48; ++c) channel_counts.push_back(c);
     for (sz c : channel_counts)
     {
         std::vector<std::vector<T>> patterns;
